@@ -303,11 +303,11 @@ pub fn run(ctx: &Ctx) -> anyhow::Result<Report> {
 	for (i, b) in bases.iter().enumerate() {
 		// work per base is bounded in bytes parsed (a 60 KB class costs ~30 ms per input)
 		let by_bytes = |mb: usize| ((mb << 20) / b.len().max(1)).max(50);
-		let budget = if ctx.thorough { by_bytes(400) } else { by_bytes(24).min(if b.len() > 4096 { 6000 } else { 4000 }) };
+		let budget = if ctx.thorough { by_bytes(100) } else { by_bytes(24).min(if b.len() > 4096 { 6000 } else { 4000 }) };
 		sites_total += gen::field_mutations(i as u32, b, &mut rng, budget, &mut inputs);
-		let step = if b.len() <= 4096 { 1 } else if ctx.thorough { (b.len() / 4000).max(1) } else { (b.len() / 600).max(7) };
+		let step = if b.len() <= 4096 { 1 } else if ctx.thorough { (b.len() / 2000).max(1) } else { (b.len() / 600).max(7) };
 		gen::truncations(i as u32, b, step, &mut inputs);
-		gen::random_edits(i as u32, b, &mut rng, if ctx.thorough { by_bytes(100).min(5000) } else { by_bytes(6).min(400) }, &mut inputs);
+		gen::random_edits(i as u32, b, &mut rng, if ctx.thorough { by_bytes(30).min(3000) } else { by_bytes(6).min(400) }, &mut inputs);
 	}
 	r.count_n("structural_sites_times_values_available", sites_total as u64);
 	gen::targeted(ctx.thorough, &mut inputs);
